@@ -46,7 +46,7 @@ PROPS = {
                        'recursion, brute-force agreement (numeric)',
     },
     'C08': {
-        'rules': ['R14', 'R07', 'R35', 'R36'],
+        'rules': ['R14', 'R07', 'R35', 'R36', 'R39'],
         'decided': 'complete case analysis of the LP dual over the finite orderings of '
                    '(lb, ub, 0, +-inf); bound-row sign table; index searches in the dual builders run on sorted sequences',
         'not_decided': 'SOC/exp/LMI dual blocks, strong duality',
